@@ -398,6 +398,32 @@ fn desc(b: &B) -> String {
 
 pub struct C05;
 
+pub const KNOWN_F64_RESOLUTION_KEY: &str = "C05:known:generalised-dod-below-f64-resolution-of-the-weight-sum";
+
+/// what an f64 evaluation of sum(weights) - D/2 * loops can resolve: a few units in
+/// the last place of the largest partial sum (generous: 4 (E+2) u (sum w + D L / 2))
+fn f64_resolution(spec: &GraphSpec, loops_full: usize) -> f64 {
+    let sw: f64 = spec.edges.iter().map(|e| f64::from_bits(e.w)).sum();
+    4.0 * (spec.edges.len() as f64 + 2.0) * 2f64.powi(-53) * (sw + spec.d as f64 / 2.0 * loops_full as f64)
+}
+
+/// the recorded example: two parallel edges 0-1 of weights 1e15 (massive) and
+/// 2.499 (massless) plus a massless edge of weight 171.5 to the only external, D = 5;
+/// the subset {171.5, 1e15} has generalised dod +1e-3 exactly, the library computes 0
+pub fn f64_resolution_example() -> GraphSpec {
+    GraphSpec {
+        d: 5,
+        edges: vec![
+            EdgeSpec { v: (82, 145), massive: false, w: 171.5f64.to_bits() },
+            EdgeSpec { v: (145, 109), massive: true, w: 1e15f64.to_bits() },
+            EdgeSpec { v: (109, 145), massive: false, w: 2.4990000000000236f64.to_bits() },
+        ],
+        externals: vec![82],
+        signature: vec![vec![0], vec![1], vec![1]],
+        name: String::new(),
+    }
+}
+
 fn graph_key(spec: &GraphSpec, class: &str) -> String {
     let mut s = spec.clone();
     s.signature = vec![];
@@ -477,7 +503,34 @@ fn judge_graph_in(
             return;
         }
     }
-    // iff
+    // iff.  One recorded finding (known_findings.json, open): the library forms the
+    // generalised degree of divergence from f64 sums of ALL weights, so with huge
+    // weights its resolution is coarser than the property's 1e-9 band; a verdict that
+    // differs from the model's because the exact value is below that resolution
+    // belongs to that finding (own class, one fixed key), anything else is new
+    let resolution = f64_resolution(spec, m.loops_full);
+    if m.min_omega.abs() <= resolution {
+        match (&m.verdict, &a) {
+            (Verdict::MustErr, B::Ok(_)) | (Verdict::MustOk, B::Err(_)) => {
+                let class = if matches!(a, B::Ok(_)) {
+                    "accepted-divergent-graph:below-f64-resolution-of-the-weight-sum"
+                } else {
+                    "rejected-convergent-graph:below-f64-resolution-of-the-weight-sum"
+                };
+                res.add("probe_verdict_differs_below_f64_resolution_of_weight_sum", 1);
+                res.found.push(Found {
+                    class: class.into(),
+                    key: KNOWN_F64_RESOLUTION_KEY.into(),
+                    detail: json!({"class": class, "model_min_generalised_dod": m.min_omega, "f64_resolution_of_the_weight_sum": resolution,
+                        "observed": desc(&a),
+                        "graph": {"D": spec.d, "edges": spec.edges.iter().map(|e| json!([e.v.0, e.v.1, e.massive, f64::from_bits(e.w)])).collect::<Vec<_>>(), "externals": spec.externals}}),
+                    case: json!({"kind": "graph", "spec": spec, "keys": [keys.0, keys.1], "variants": 0}),
+                });
+                return;
+            }
+            _ => {}
+        }
+    }
     match (&m.verdict, &a) {
         (Verdict::MustErr, B::Ok(_)) => push(
             res,
@@ -649,7 +702,12 @@ impl Property for C05 {
     fn run_one(&self, seed: u64, index: u64, thorough: bool) -> OneResult {
         let mut rng = SplitMix::new(seed);
         ctx::install(usize::MAX, None, PreemptPlan::default());
-        let spec = gen_graph(&mut rng, thorough);
+        let mut spec = gen_graph(&mut rng, thorough);
+        if index == 11 {
+            // the recorded example of the open finding (known_findings.json): met on
+            // every run of the check, whatever the seed
+            spec = f64_resolution_example();
+        }
         let keys = (rng.next(), rng.next());
         let threaded = if rng.chance(1, 3) {
             Some((rng.next(), *rng.pick(&[1u64, 1, 2, 5]), *rng.pick(&[SchedKind::Uniform, SchedKind::RoundRobin, SchedKind::Pct])))
@@ -663,7 +721,9 @@ impl Property for C05 {
         // builds (and samples) of fixed seed graphs must not change during the life of
         // the worker process (state corrupted by earlier builds)
         crate::prop_sc::canary_check(&mut res);
-        if index % 2048 == 5 {
+        // opt-in (VERIF_TEARDOWN_CHECK=1): see DESIGN 8.5, calls from thread-local
+        // destructors are deliberately not part of the registered checks
+        if index % 2048 == 5 && std::env::var_os("VERIF_TEARDOWN_CHECK").is_some() {
             crate::prop_sc::teardown_check(&mut res);
         }
         if index < 64 {
